@@ -95,6 +95,7 @@ def run_case(spec):
 
     attached_alive = [False, False]
     viol_early = []
+    zero_consumers = [0]
     partial = [None, None]
     limit = [1 << 30, 1 << 30]
     giveups = [rng.choice([0, 0, 1, 3]), rng.choice([0, 0, 1, 3])]
@@ -104,6 +105,18 @@ def run_case(spec):
         total = sum(len(x) for x in plans[d])
         t = rx.transport
         attached_alive[d] = bool(getattr(t, "connected", 0)) and rx.state == "records"
+        if rng.random() < 0.3 and rx._consumer is None:
+            # a zero-length body first (e.g. an empty file in a multi-part session): the consumer must be finished at
+            # once with 0 bytes and must not be given any of the records that are already queued
+            z = RecordingConsumer()
+            zero_consumers[0] += 1
+            try:
+                dz = Result(rx.connectConsumer(z, expected=0))
+                if not dz.done or dz.value != 0 or any(len(w_) for w_ in z.writes):
+                    viol_early.append({"key": "C06/zero-length-consumer-got-data", "msg": "direction %d: connectConsumer(expected=0) -> done=%s result=%r writes=%r" % (
+                        d, dz.done, dz.value if dz.done else None, [len(w_) for w_ in z.writes]), "witness": {"spec": spec, "mode": modes[d]}})
+            except Exception as e:
+                viol_early.append({"key": "C06/zero-length-consumer-raises/" + type(e).__name__, "msg": repr(e)[:200], "witness": {"spec": spec}})
         if modes[d] == "file":
             f = io.BytesIO()
             h = hashlib.sha256()
@@ -294,7 +307,7 @@ def run_case(spec):
                       [len(x) for x in plans[0]][:10], [len(x) for x in plans[1]][:10], sch.tiny_budget]
     return {"violations": viol, "nontrivial": nontrivial,
             "counters": {"records_surfaced": total_surfaced, "tampers_fed": tampers_fed,
-                         "clean_complete": int(clean and not viol), "idle_sessions": idled, "reads_given_up": readers[0].given_up + readers[1].given_up, "consumers_attached_after_close": len(late_attach),
+                         "clean_complete": int(clean and not viol), "idle_sessions": idled, "reads_given_up": readers[0].given_up + readers[1].given_up, "consumers_attached_after_close": len(late_attach), "zero_length_consumers": zero_consumers[0],
                          "reads_reissued_from_errback": readers[0].retried + readers[1].retried, "false_consumers": sum(isinstance(c, QueueLikeConsumer) for c in consumers), "reads_issued_on_dropped_connection": sum(len(plans[d]) for d in (0, 1) if modes[d] == "late" and not getattr(conns[1 - d].transport, "connected", 1)) if tamper else 0, "partial_consumers": sum(1 for x in partial if x is not None), "records_sent": sent[0] + sent[1],
                          "bytes": sum(len(x) for p in plans for x in p), "steps": world.step,
                          **{"mode_" + m: 1 for m in modes}},
